@@ -196,6 +196,7 @@ pub struct Features {
     pub mems: u32,
     pub delays: u32,
     pub max_delay: u32,
+    pub varying_delay_time: u32,
     pub stateful_calls: u32,
     pub stateful_depth: u32,
     pub stateful_in_branch: u32,
@@ -212,6 +213,7 @@ pub struct Features {
     pub matches: u32,
     pub arrays: u32,
     pub sibling_closures: u32,
+    pub closure_aggregate_params: u32,
     pub shared_cells: u32,
     pub packs: u32,
     pub curried: u32,
@@ -240,6 +242,7 @@ impl Features {
         f!(self.mems > 0, "f:mem");
         f!(self.delays > 0, "f:delay");
         f!(self.delays > 1, "f:multi-delay");
+        f!(self.varying_delay_time > 0, "f:varying-delay-time");
         f!(self.stateful_calls > 0, "f:stateful-call");
         f!(self.stateful_depth >= 2, "f:nested-stateful");
         f!(self.stateful_in_branch > 0, "f:stateful-in-branch");
@@ -256,6 +259,7 @@ impl Features {
         f!(self.matches > 0, "f:match");
         f!(self.arrays > 0, "f:array");
         f!(self.sibling_closures > 0, "f:sibling-closures");
+        f!(self.closure_aggregate_params > 0, "f:closure-aggregate-params");
         f!(self.shared_cells > 0, "f:shared-cell");
         f!(self.packs > 0, "f:param-pack");
         f!(self.curried > 0, "f:curried-call");
@@ -329,6 +333,8 @@ pub struct PCfg {
     pub rec_pattern_thirds: u32,
     /// two local closures of one frame capturing the same closure-typed local
     pub sibling_closures: bool,
+    /// local closures may take tuple / record parameters next to further parameters
+    pub closure_aggregate_params: bool,
     /// a numeric local assigned and read by two closures of its frame and by the frame itself
     pub shared_cell: bool,
     /// tuples / records piped into a function as its parameters
@@ -390,6 +396,7 @@ impl Default for PCfg {
             rec_weight: 1,
             rec_pattern_thirds: 1,
             sibling_closures: true,
+            closure_aggregate_params: true,
             shared_cell: true,
             param_packs: true,
             default_args: true,
@@ -467,6 +474,16 @@ pub struct PG<'a> {
 }
 
 const IDENTS: &[&str] = &["a", "b", "c", "d", "e", "k", "m", "n", "p", "q", "r", "s", "t", "u", "v", "w", "y", "z", "acc", "val", "tmp", "gain", "freq", "ph", "lo", "hi"];
+
+impl PCfg {
+    /// the same feature set with a small size budget: programs of a handful of lines in which a
+    /// single feature is not buried under code whose value never reaches the output
+    pub fn small(mut self, g: &mut Gen) -> PCfg {
+        self.fuel = g.int(8, 16) as i32;
+        self.max_fns = g.int(0, 2) as usize;
+        self
+    }
+}
 
 impl<'a> PG<'a> {
     pub fn new(g: &'a mut Gen, cfg: PCfg) -> Self {
@@ -744,6 +761,26 @@ impl<'a> PG<'a> {
                     let nn = n as f64;
                     let v = *self.g.pick(&[nn, nn - 1.0, nn + 1.0, 0.0, nn - 0.5, nn + 0.5, 0.5, nn * 2.0]);
                     E::Lit(format!("{v:?}"))
+                } else if n >= 3 && self.g.bool(1, 3) {
+                    // a time that changes from sample to sample but stays inside [1, N-1]
+                    let lit = |g: &mut Gen| {
+                        let k = g.int(1, (n - 1) as i64);
+                        if k < (n - 1) as i64 && g.bool(1, 4) { format!("{k}.5") } else { format!("{k}.0") }
+                    };
+                    if self.cfg.modulo && self.g.bool(1, 3) {
+                        // base + (now % k), base + k - 1 <= N - 1
+                        let k = self.g.int(2, (n - 1) as i64);
+                        let base = self.g.int(1, (n as i64 - 1) - (k - 1));
+                        self.feat.varying_delay_time += 1;
+                        E::Bin(Bop::Add, Box::new(E::Lit(format!("{base}.0"))), Box::new(E::Bin(Bop::Mod, Box::new(E::Now), Box::new(E::Lit(format!("{k}.0"))))))
+                    } else {
+                        let (a, b) = (lit(self.g), lit(self.g));
+                        let raw = std::mem::replace(&mut self.cfg.raw_conditions, false);
+                        let c = self.cond(sc);
+                        self.cfg.raw_conditions = raw;
+                        self.feat.varying_delay_time += 1;
+                        E::If(Box::new(c), Box::new(E::Lit(a)), Box::new(E::Lit(b)))
+                    }
                 } else {
                     E::Lit(format!("{}.0", self.g.int(1, (n - 1) as i64)))
                 };
@@ -1222,15 +1259,28 @@ impl<'a> PG<'a> {
     /// `{ let f = |a| body;  f(x) + f(y) }` — closure called in the frame that created it
     fn local_closure(&mut self, sc: &mut Scope) -> E {
         self.feat.closures_local += 1;
-        let lam = self.lambda(&[Ty::Num], &Ty::Num, sc);
+        // parameter list: one number, or (a third of the time) 1-3 parameters of which some are
+        // tuples / records, so that a parameter follows a multi-word one
+        let ps: Vec<Ty> = if self.cfg.closure_aggregate_params && self.g.bool(1, 3) {
+            let k = self.g.int(1, 3) as usize;
+            let mut v: Vec<Ty> = (0..k).map(|_| if self.g.bool(1, 2) { self.small_ty(true) } else { Ty::Num }).collect();
+            if v.iter().all(|t| *t == Ty::Num) {
+                v[0] = self.small_ty(true);
+            }
+            self.feat.closure_aggregate_params += 1;
+            v
+        } else {
+            vec![Ty::Num]
+        };
+        let lam = self.lambda(&ps, &Ty::Num, sc);
         let fname = self.fresh("f");
-        let a1 = self.num(sc);
+        let a1: Vec<E> = ps.iter().map(|t| self.expr(t, sc)).collect();
         let id1 = self.id();
-        let c1 = E::Call(id1, Box::new(E::Var(fname.clone())), vec![a1]);
+        let c1 = E::Call(id1, Box::new(E::Var(fname.clone())), a1);
         let last = if self.g.coin() {
-            let a2 = self.num(sc);
+            let a2: Vec<E> = ps.iter().map(|t| self.expr(t, sc)).collect();
             let id2 = self.id();
-            E::Bin(Bop::Add, Box::new(c1), Box::new(E::Call(id2, Box::new(E::Var(fname.clone())), vec![a2])))
+            E::Bin(Bop::Add, Box::new(c1), Box::new(E::Call(id2, Box::new(E::Var(fname.clone())), a2)))
         } else {
             c1
         };
@@ -1434,6 +1484,10 @@ pub struct Layout {
     pub indent: usize,
     /// comment inserted after each statement (index-tagged)
     pub comments: bool,
+    /// 0: every comment is `// c<n>`; otherwise comment texts are taken from `COMMENT_POOL`
+    /// (line and block comments with runs of stars, slashes, quotes, brackets, keywords, non-ASCII
+    /// text), starting at this offset
+    pub comment_seed: u64,
     /// extra blank lines between top-level items
     pub blank_lines: usize,
     /// with `extra_parens`: do NOT parenthesise the right-hand side of a record-pattern `let`
@@ -1469,6 +1523,11 @@ pub fn add_tail_gate(p: &mut Prog, k: u32) -> bool {
     }
     false
 }
+
+/// comment texts (`@` = running number); none contains `*/` before its end
+pub const COMMENT_POOL: &[&str] = &[
+    "// c@", "/* c@ */", "/** c@ **/", "/***/", "/**** c@ ****/", "/* a * b */", "/* // */", "// /* open", "/**/", "/* \"q\" */", "/* } ) ] */", "/* fn let if else */", "/* \u{e9}\u{2603} */", "/*** c@ ***/", "/* * */", "/* c@ **/", "// */", "/* / * / */", "//", "/*c@*/",
+];
 
 pub fn render(p: &Prog, lay: &Layout) -> String {
     let mut out = String::new();
@@ -1654,7 +1713,12 @@ fn render_e_inner(e: &E, lay: &Layout, level: usize, out: &mut String, cn: &mut 
                 }
                 if lay.comments {
                     *cn += 1;
-                    let _ = write!(out, " // c{cn}");
+                    if lay.comment_seed == 0 {
+                        let _ = write!(out, " // c{cn}");
+                    } else {
+                        let t = COMMENT_POOL[(lay.comment_seed as usize + *cn * 7) % COMMENT_POOL.len()];
+                        let _ = write!(out, " {}", t.replace("@", &cn.to_string()));
+                    }
                 }
                 out.push('\n');
             }
